@@ -45,8 +45,9 @@ func verifyAuthorizedKeys(user *user.User, authorizedKeysBytes []byte,
 	for len(authorizedKeysBytes) > 0 {
 		authorizedPubKey, _, _, restBytes, err := gossh.ParseAuthorizedKey(authorizedKeysBytes)
 		if err != nil {
-			return nil, fmt.Errorf("unable to parse authorized keys bytes|%s|%s",
-				user, err.Error())
+			// ParseAuthorizedKey skips lines it can't parse and only fails when the
+			// remaining bytes hold no key at all (e.g. trailing blank lines or comments).
+			break
 		}
 		authorizedKeysMap[string(authorizedPubKey.Marshal())] = true
 		authorizedKeysBytes = restBytes
